@@ -94,7 +94,7 @@ CLAIMED = {
  "C13": C("Proved: C13_mechanism (conn.go's statusCollector as it is built - one buffered channel per distinct address with capacity = "
           "occurrences, SetStatus, fillRemaining, receive in RCPT order - delivers exactly the specified attribution: the j-th occurrence of an "
           "address gets the j-th status set for it, the return value otherwise; for every recipient list and every in-contract call sequence), "
-          "C13_one_per_recipient (one status per accepted recipient, in order), C13_contract_agrees + C13_attribution (the server model's "
+          "C13_one_per_recipient (one status per accepted recipient, in order), C13_failed_last_one_per_recipient (also for a BDAT LAST that cannot be delivered - the behaviour repaired in 0a438b9), C13_contract_agrees + C13_attribution (the server model's "
           "bookkeeping accepts exactly when the channels do not panic and writes the same statuses), C13_model_is_spec. Implementation: the "
           "attribution specification as executable judge on LMTP conversations with duplicate and case-variant recipients, refused recipients, "
           "status scripts, panics, DATA and BDAT, both backend kinds; compared with the model.",
